@@ -121,12 +121,11 @@ func (E *Engine) freshResults(fr *Frame, st *State, hint string, res *types.Tupl
 
 // assumeAllocated: references obtained from the environment point to allocated objects (or are nil).
 func (E *Engine) assumeAllocated(st *State, v *Term) {
-	tb := E.tb
 	switch v.sort {
 	case SRef:
-		E.addFact(st, tb.Or(tb.Eq(v, E.null()), tb.Select(E.allocArr(st), v)))
+		E.addFact(st, E.exists(st, v))
 	case SSlc:
-		E.addFact(st, tb.Or(tb.Eq(E.slcArr(v), E.null()), tb.Select(E.allocArr(st), E.slcArr(v))))
+		E.addFact(st, E.exists(st, E.slcArr(v)))
 	case SIfc:
 		// payload may be a box (not an allocated object); nothing to say
 	}
@@ -208,13 +207,11 @@ func (E *Engine) unknownCall(fr *Frame, st *State, what string, res *types.Tuple
 }
 
 func (E *Engine) havocAll(st *State) {
-	al := E.allocArr(st)
+	al := E.clock(st)
 	E.nextBase++
 	st.base = E.nextBase
 	st.heap = map[string]*Term{}
-	nal := E.allocArr(st)
-	r := E.tb.BVar("r", SRef)
-	E.addFact(st, E.tb.Forall([]*Term{r}, E.tb.Implies(E.tb.Select(al, r), E.tb.Select(nal, r))))
+	E.addFact(st, E.tb.Cmp("<=", al, E.clock(st)))
 }
 
 // calleeBody picks the body to execute for fn and the type environment for it.
@@ -516,7 +513,6 @@ func (E *Engine) intrinsic(fr *Frame, st *State, name string, fn *ssa.Function, 
 			E.addFact(st, c)
 		} else {
 			E.addObl(fr, st, "post", label, c, instr.Pos())
-			E.addFact(st, c)
 		}
 		return nil
 	case "Assert":
@@ -582,14 +578,16 @@ func (E *Engine) intrinsic(fr *Frame, st *State, name string, fn *ssa.Function, 
 		sub := old.clone()
 		sub.reach = tb.True()
 		// captured variables live in cells that may have been written after the snapshot: read them now
-		for _, b := range c.bind {
-			if r, ok := b.(*Term); ok && r.sort == SRef {
-				E.copyCells(sub, st, r)
-			}
-		}
 		body, tenv := E.calleeBody(c.fn, fr.tenv)
 		if tenv == nil {
 			tenv = fr.tenv
+		}
+		for i, b := range c.bind {
+			if r, ok := b.(*Term); ok && r.sort == SRef && i < len(body.FreeVars) {
+				if pt, ok := body.FreeVars[i].Type().(*types.Pointer); ok {
+					E.storeObj(sub, r, pt.Elem(), E.loadObj(st, r, pt.Elem(), tenv), tenv)
+				}
+			}
 		}
 		nf := E.newFrame(body, fr, tenv)
 		nf.spec = true
@@ -631,7 +629,7 @@ func (E *Engine) intrinsic(fr *Frame, st *State, name string, fn *ssa.Function, 
 		if r.sort != SRef {
 			E.fail("Fresh needs a reference")
 		}
-		return tb.And(tb.Not(tb.Eq(r, E.null())), tb.Not(tb.Select(E.allocArr(old), r)))
+		return tb.And(tb.Not(tb.Eq(r, E.null())), tb.Cmp(">", E.birth(r), E.clock(old)))
 	case "Implies":
 		return tb.Implies(args[0].(*Term), args[1].(*Term))
 	case "Iff":
@@ -657,19 +655,6 @@ func (E *Engine) oldState(fr *Frame) *State {
 	return nil
 }
 
-// copyCells makes the cell(s) at r in dst hold what they hold in src (all cell-sorted heap arrays).
-func (E *Engine) copyCells(dst, src *State, r *Term) {
-	for k, srt := range E.heapSorts {
-		if !strings.HasPrefix(k, "Cell$") {
-			continue
-		}
-		if _, ok := src.heap[k]; !ok {
-			continue
-		}
-		E.set(dst, k, E.tb.Store(E.get(dst, k, srt), r, E.tb.Select(E.get(src, k, srt), r)))
-	}
-}
-
 // ---------------------------------------------------------------------------------------------
 // Builtins
 // ---------------------------------------------------------------------------------------------
@@ -689,7 +674,7 @@ func (E *Engine) builtin(fr *Frame, st *State, b *ssa.Builtin, cc *ssa.CallCommo
 		case *types.Basic:
 			return E.strLen(x)
 		case *types.Map:
-			return E.mapLen(E.mapDom(st, x, E.sortOf(tt.Key(), fr.tenv)))
+			return E.mapLen(E.mapDom(st, x, tt, fr.tenv))
 		case *types.Array:
 			return tb.Int(tt.Len())
 		case *types.Pointer:
@@ -711,7 +696,7 @@ func (E *Engine) builtin(fr *Frame, st *State, b *ssa.Builtin, cc *ssa.CallCommo
 		if mt, ok := xt.(*types.Map); ok {
 			ks := E.sortOf(mt.Key(), fr.tenv)
 			m := args[0].(*Term)
-			dk, dks := E.mdomKey(ks)
+			dk, dks := E.mdomKey(mt, fr.tenv)
 			dh := E.get(st, dk, dks)
 			E.set(st, dk, tb.Ite(tb.Eq(m, E.null()), dh, tb.Store(dh, m, tb.ConstArray(ArraySort(ks, SBool), tb.False()))))
 			return nil
@@ -763,7 +748,7 @@ func (E *Engine) appendBuiltin(fr *Frame, st *State, cc *ssa.CallCommon, args []
 	} else {
 		E.fail("append(%s, %s...) unsupported", cc.Args[0].Type(), cc.Args[1].Type())
 	}
-	ak, aks := E.arrKey(es)
+	ak, aks := E.arrKey(stp.Elem(), fr.tenv)
 	n := E.slcLen(add)
 	if v, ok := n.IntVal(); ok && v == 0 {
 		return s
@@ -838,7 +823,7 @@ func (E *Engine) copyBuiltin(fr *Frame, st *State, cc *ssa.CallCommon, args []Va
 	}
 	src := args[1].(*Term)
 	es := E.sortOf(stp.Elem(), fr.tenv)
-	ak, aks := E.arrKey(es)
+	ak, aks := E.arrKey(stp.Elem(), fr.tenv)
 	ah := E.get(st, ak, aks)
 	n := tb.Ite(tb.Cmp("<", E.slcLen(dst), E.slcLen(src)), E.slcLen(dst), E.slcLen(src))
 	na := tb.Fresh("arr", ArraySort(SInt, es))
